@@ -200,10 +200,11 @@ var profiles = []profile{
 	{name: "swap", maxConns: 3, noSynFin: true, perturb: 3, allowSwap: true},
 	{name: "omit", maxConns: 3, noSynFin: true, perturb: 2, allowOmit: true},
 	{name: "frag", maxConns: 3, noSynFin: true, perturb: 3, allowFrag: true},
-	{name: "mixed", maxConns: 4, noSynFin: true, perturb: 4, allowDup: true, allowSwap: true, allowOmit: true, allowFrag: true},
+	{name: "mixed", maxConns: 4, noSynFin: true, perturb: 4, allowDup: true, allowSwap: true, allowOmit: true, allowFrag: true, snap: true},
 	{name: "edge", maxConns: 2, noSynFin: true, perturb: 3, allowDup: true, allowSwap: true, edgeSwap: true},
 	{name: "fragmess", maxConns: 2, noSynFin: true, perturb: 3, allowFrag: true, fragMess: true, allowDup: true},
 	{name: "sections", maxConns: 3, noSynFin: true, perturb: 2, allowDup: true, allowSwap: true, allowOmit: true, allowFrag: true, sections: true},
+	{name: "snap", maxConns: 3, noSynFin: true, perturb: 3, snap: true, allowDup: true, allowSwap: true},
 	{name: "big", maxConns: 2, noSynFin: true, perturb: 3, allowDup: true, allowSwap: true, allowOmit: true, big: true},
 }
 
@@ -229,7 +230,7 @@ func main() {
 
 	// per shard (lib/props/C19.json: 4 shards quick, 8 shards thorough)
 	counts := map[string]int{"plain": 10, "files": 40, "nosynfin": 40, "dup": 40, "swap": 40, "omit": 50, "frag": 40,
-		"mixed": 100, "edge": 60, "fragmess": 40, "sections": 40, "big": 2}
+		"mixed": 100, "edge": 60, "fragmess": 40, "sections": 40, "snap": 60, "big": 2}
 	if cfg.Thorough() {
 		for k := range counts {
 			counts[k] *= 10
